@@ -221,3 +221,493 @@ theorem diffRules_objs (diff : Differ) (fuel : Nat) (st : St) (a b : Vsys) (aRul
   rw [rulePhase2_objs, h1]
 
 end NA.PanOs
+
+namespace NA.PanOs
+
+/-! ### `modAt`, `lastIdx` -/
+
+theorem modAt_getElem? {α : Type} (l : List α) (i : Nat) (f : α → α) (j : Nat) :
+    (modAt l i f)[j]? = if j = i then l[j]?.map f else l[j]? := by
+  induction l generalizing i j with
+  | nil => simp [modAt]
+  | cons x xs ih =>
+    cases i with
+    | zero =>
+      cases j with
+      | zero => simp [modAt]
+      | succ j => simp [modAt]
+    | succ i =>
+      cases j with
+      | zero => simp [modAt]
+      | succ j => simp [modAt, ih]
+
+theorem modAt_map {α β : Type} (l : List α) (i : Nat) (f : α → α) (g : α → β) (h : ∀ x, g (f x) = g x) :
+    (modAt l i f).map g = l.map g := by
+  induction l generalizing i with
+  | nil => simp [modAt]
+  | cons x xs ih =>
+    cases i with
+    | zero => simp [modAt, h]
+    | succ i => simp [modAt, ih]
+
+theorem lastIdxFrom_none (n : String) : ∀ (l : List String) (k : Nat), n ∉ l → lastIdxFrom n l k none = none := by
+  intro l
+  induction l with
+  | nil => intro k _; rfl
+  | cons x xs ih =>
+    intro k h
+    have hx : (x == n) = false := by
+      have : x ≠ n := fun e => h (by simp [e])
+      simpa using this
+    simp only [lastIdxFrom, hx, Bool.false_eq_true, if_false]
+    exact ih (k + 1) (fun hm => h (List.mem_cons_of_mem _ hm))
+
+theorem lastIdx_none_of_not_mem {names : List String} {n : String} (h : n ∉ names) : lastIdx names n = none :=
+  lastIdxFrom_none n names 0 h
+
+theorem lastIdxFrom_isSome (n : String) : ∀ (l : List String) (k : Nat) (acc : Option Nat),
+    (n ∈ l ∨ acc.isSome) → (lastIdxFrom n l k acc).isSome := by
+  intro l
+  induction l with
+  | nil =>
+    intro k acc h
+    rcases h with h | h
+    · cases h
+    · simpa [lastIdxFrom] using h
+  | cons x xs ih =>
+    intro k acc h
+    simp only [lastIdxFrom]
+    apply ih
+    rcases h with h | h
+    · rcases List.mem_cons.mp h with rfl | h
+      · right; simp
+      · left; exact h
+    · right; split <;> simp [h]
+
+theorem lastIdx_isSome_of_mem {names : List String} {n : String} (h : n ∈ names) : (lastIdx names n).isSome :=
+  lastIdxFrom_isSome n names 0 none (Or.inl h)
+
+/-! ### `markObjects` marks what the target's rules name -/
+
+/-- Definitions stay, `needed` flags of device addresses only go up. -/
+def MarkInv (st st' : St) : Prop :=
+  st'.aAddr.map (·.o) = st.aAddr.map (·.o) ∧ st'.bAddr.map (·.o) = st.bAddr.map (·.o) ∧
+  st'.bGrp.map (·.g) = st.bGrp.map (·.g) ∧
+  ∀ (i : Nat) (o : AObj), st.aAddr[i]? = some o → o.needed = true →
+    ∃ o' : AObj, st'.aAddr[i]? = some o' ∧ o'.needed = true
+
+theorem MarkInv.refl (st : St) : MarkInv st st := ⟨rfl, rfl, rfl, fun _ o h hn => ⟨o, h, hn⟩⟩
+
+theorem MarkInv.trans {a b c : St} (h₁ : MarkInv a b) (h₂ : MarkInv b c) : MarkInv a c := by
+  obtain ⟨a1, a2, a3, a4⟩ := h₁
+  obtain ⟨b1, b2, b3, b4⟩ := h₂
+  refine ⟨b1.trans a1, b2.trans a2, b3.trans a3, ?_⟩
+  intro i o h hn
+  obtain ⟨o', h', hn'⟩ := a4 i o h hn
+  exact b4 i o' h' hn'
+
+theorem MarkInv.idx {st st' : St} (h : MarkInv st st') (x : String) :
+    st'.aAddrIdx x = st.aAddrIdx x ∧ st'.bAddrIdx x = st.bAddrIdx x ∧ st'.bGrpIdx x = st.bGrpIdx x := by
+  obtain ⟨h1, h2, h3, _⟩ := h
+  refine ⟨?_, ?_, ?_⟩
+  · unfold St.aAddrIdx
+    have : st'.aAddr.map (·.o.name) = st.aAddr.map (·.o.name) := by
+      have := congrArg (List.map (·.name)) h1
+      simpa [List.map_map, Function.comp_def] using this
+    rw [this]
+  · unfold St.bAddrIdx
+    have : st'.bAddr.map (·.o.name) = st.bAddr.map (·.o.name) := by
+      have := congrArg (List.map (·.name)) h2
+      simpa [List.map_map, Function.comp_def] using this
+    rw [this]
+  · unfold St.bGrpIdx
+    have : st'.bGrp.map (·.g.name) = st.bGrp.map (·.g.name) := by
+      have := congrArg (List.map (·.name)) h3
+      simpa [List.map_map, Function.comp_def] using this
+    rw [this]
+
+theorem markInv_setA (st : St) (ai : Nat) :
+    MarkInv st { st with aAddr := modAt st.aAddr ai (fun o => { o with needed := true }) } := by
+  refine ⟨modAt_map _ _ _ _ (fun _ => rfl), rfl, rfl, ?_⟩
+  intro i o h hn
+  simp only [modAt_getElem?]
+  split
+  · exact ⟨{ o with needed := true }, by simp [h], rfl⟩
+  · exact ⟨o, h, hn⟩
+
+theorem markInv_bAddr (st : St) (bi : Nat) (f : BObj → BObj) (hf : ∀ x, (f x).o = x.o) :
+    MarkInv st { st with bAddr := modAt st.bAddr bi f } :=
+  ⟨rfl, modAt_map _ _ _ _ hf, rfl, fun _ o h hn => ⟨o, h, hn⟩⟩
+
+theorem markInv_bGrp (st : St) (gi : Nat) (f : BGrp → BGrp) (hf : ∀ x, (f x).g = x.g) :
+    MarkInv st { st with bGrp := modAt st.bGrp gi f } :=
+  ⟨rfl, rfl, modAt_map _ _ _ _ hf, fun _ o h hn => ⟨o, h, hn⟩⟩
+
+theorem foldl_markInv {β : Type} (f : St → β → St) (hf : ∀ s x, MarkInv s (f s x)) :
+    ∀ (l : List β) (s : St), MarkInv s (l.foldl f s) := by
+  intro l
+  induction l with
+  | nil => intro s; exact MarkInv.refl s
+  | cons x xs ih => intro s; exact (hf s x).trans (ih _)
+
+/-- One element of the loop of `markAddresses`. -/
+def markAddrStep (fuel : Nat) (st : St) (name : String) : St :=
+  match st.bGrpIdx name with
+  | some gi =>
+    let st := { st with bGrp := modAt st.bGrp gi (fun g => { g with needed := true }) }
+    markAddrs fuel st ((st.bGrp[gi]?.map (·.g.members)).getD [])
+  | none =>
+    match st.bAddrIdx name with
+    | none => st
+    | some bi =>
+      match st.aAddrIdx name with
+      | some ai =>
+        let st := { st with aAddr := modAt st.aAddr ai (fun o => { o with needed := true }) }
+        let va := (st.aAddr[ai]?.map (·.o.val)).getD ""
+        let vb := (st.bAddr[bi]?.map (·.o.val)).getD ""
+        if va != vb then { st with bAddr := modAt st.bAddr bi (fun o => { o with edit := true }) }
+        else st
+      | none => { st with bAddr := modAt st.bAddr bi (fun o => { o with needed := true }) }
+
+theorem markAddrs_succ (fuel : Nat) (st : St) (l : List String) :
+    markAddrs (fuel + 1) st l = l.foldl (markAddrStep fuel) st := by
+  rw [markAddrs]; rfl
+
+theorem markAddrs_inv : ∀ (fuel : Nat) (st : St) (l : List String), MarkInv st (markAddrs fuel st l) := by
+  intro fuel
+  induction fuel with
+  | zero => intro st l; exact MarkInv.refl st
+  | succ fuel ih =>
+    intro st l
+    rw [markAddrs_succ]
+    apply foldl_markInv
+    intro s name
+    unfold markAddrStep
+    split
+    · rename_i gi _
+      dsimp only
+      exact (markInv_bGrp s gi (fun g => { g with needed := true }) (fun _ => rfl)).trans (ih _ _)
+    · split
+      · exact MarkInv.refl s
+      · rename_i bi _
+        split
+        · rename_i ai _
+          dsimp only
+          split
+          · exact (markInv_setA s ai).trans (markInv_bAddr _ bi (fun o => { o with edit := true }) (fun _ => rfl))
+          · exact markInv_setA s ai
+        · exact markInv_bAddr s bi (fun o => { o with needed := true }) (fun _ => rfl)
+
+/-- The device address named `x` (if there is one) is marked `needed`. -/
+def Marked (st : St) (x : String) : Prop :=
+  ∀ ai, st.aAddrIdx x = some ai → ∃ o, st.aAddr[ai]? = some o ∧ o.needed = true
+
+theorem Marked.mono {st st' : St} {x : String} (h : MarkInv st st') (hm : Marked st x) : Marked st' x := by
+  intro ai hai
+  rw [(h.idx x).1] at hai
+  obtain ⟨o, ho, hn⟩ := hm ai hai
+  exact h.2.2.2 ai o ho hn
+
+theorem markAddrStep_marks (fuel : Nat) (s : St) (x : String)
+    (hg : s.bGrpIdx x = none) (hb : (s.bAddrIdx x).isSome) : Marked (markAddrStep fuel s x) x := by
+  unfold markAddrStep
+  rw [hg]
+  cases hbi : s.bAddrIdx x with
+  | none => simp [hbi] at hb
+  | some bi =>
+    simp only
+    cases hai : s.aAddrIdx x with
+    | none =>
+      intro ai h
+      have : (({ s with bAddr := modAt s.bAddr bi (fun o => { o with needed := true }) } : St).aAddrIdx x) =
+          s.aAddrIdx x := rfl
+      simp only at h
+      rw [this, hai] at h
+      cases h
+    | some ai =>
+      simp only
+      have hin : ∃ o, s.aAddr[ai]? = some o := by
+        have := lastIdx_spec hai
+        rw [List.getElem?_map] at this
+        cases h : s.aAddr[ai]? with
+        | none => simp [h] at this
+        | some o => exact ⟨o, rfl⟩
+      obtain ⟨o, ho⟩ := hin
+      have hset : Marked { s with aAddr := modAt s.aAddr ai (fun o => { o with needed := true }) } x := by
+        intro ai' h'
+        have hidx := ((markInv_setA s ai).idx x).1
+        rw [hidx, hai] at h'
+        cases h'
+        exact ⟨{ o with needed := true }, by simp [modAt_getElem?, ho], rfl⟩
+      split
+      · exact hset.mono (markInv_bAddr _ bi (fun o => { o with edit := true }) (fun _ => rfl))
+      · exact hset
+
+theorem markAddrs_marks (fuel : Nat) : ∀ (l : List String) (st : St) (x : String), x ∈ l →
+    st.bGrpIdx x = none → (st.bAddrIdx x).isSome → Marked (markAddrs (fuel + 1) st l) x := by
+  intro l
+  induction l with
+  | nil => intro st x hx; cases hx
+  | cons y ys ih =>
+    intro st x hx hg hb
+    rw [markAddrs_succ, List.foldl_cons, ← markAddrs_succ]
+    have hstep : MarkInv st (markAddrStep fuel st y) := by
+      have := markAddrs_inv (fuel + 1) st [y]
+      rw [markAddrs_succ] at this
+      simpa using this
+    rcases List.mem_cons.mp hx with rfl | hx
+    · exact (markAddrStep_marks fuel st x hg hb).mono (markAddrs_inv _ _ _)
+    · apply ih _ x hx
+      · rw [(hstep.idx x).2.2]; exact hg
+      · rw [(hstep.idx x).2.1]; exact hb
+
+/-- `markServices` leaves addresses and address-groups alone. -/
+theorem markSrvs_addr : ∀ (fuel : Nat) (st : St) (l : List String),
+    (markSrvs fuel st l).aAddr = st.aAddr ∧ (markSrvs fuel st l).bAddr = st.bAddr ∧
+      (markSrvs fuel st l).bGrp = st.bGrp := by
+  intro fuel
+  induction fuel with
+  | zero => intro st l; exact ⟨rfl, rfl, rfl⟩
+  | succ fuel ih =>
+    intro st l
+    rw [markSrvs]
+    suffices h : ∀ (l : List String) (s : St) (f : St → String → St),
+        (∀ s x, (f s x).aAddr = s.aAddr ∧ (f s x).bAddr = s.bAddr ∧ (f s x).bGrp = s.bGrp) →
+        (l.foldl f s).aAddr = s.aAddr ∧ (l.foldl f s).bAddr = s.bAddr ∧ (l.foldl f s).bGrp = s.bGrp by
+      apply h
+      intro s name
+      split
+      · dsimp only
+        split
+        · split
+          · simp only [ih]; exact ⟨trivial, trivial, trivial⟩
+          · simp only [ih]; exact ⟨trivial, trivial, trivial⟩
+        · simp only [ih]; exact ⟨trivial, trivial, trivial⟩
+      · split
+        · exact ⟨rfl, rfl, rfl⟩
+        · split
+          · dsimp only
+            split <;> exact ⟨rfl, rfl, rfl⟩
+          · exact ⟨rfl, rfl, rfl⟩
+    intro l
+    induction l with
+    | nil => intro s f _; exact ⟨rfl, rfl, rfl⟩
+    | cons x xs ihl =>
+      intro s f hf
+      simp only [List.foldl_cons]
+      obtain ⟨h1, h2, h3⟩ := ihl (f s x) f hf
+      obtain ⟨g1, g2, g3⟩ := hf s x
+      exact ⟨h1.trans g1, h2.trans g2, h3.trans g3⟩
+
+theorem markSrvs_inv (fuel : Nat) (st : St) (l : List String) : MarkInv st (markSrvs fuel st l) := by
+  obtain ⟨h1, h2, h3⟩ := markSrvs_addr fuel st l
+  refine ⟨by rw [h1], by rw [h2], by rw [h3], ?_⟩
+  intro i o h hn
+  exact ⟨o, by rw [h1]; exact h, hn⟩
+
+/-- After `markObjects`, every device address that a rule names in source or destination —
+as an address of the target, not as a group — is `needed`. -/
+theorem markObjects_marks (fuel : Nat) : ∀ (rules : List Rule) (st : St) (r : Rule) (x : String),
+    r ∈ rules → (x ∈ r.src ∨ x ∈ r.dst) → st.bGrpIdx x = none → (st.bAddrIdx x).isSome →
+    Marked (markObjects (fuel + 1) st rules) x := by
+  intro rules
+  induction rules with
+  | nil => intro st r x hr; cases hr
+  | cons r0 rs ih =>
+    intro st r x hr hx hg hb
+    unfold markObjects at ih ⊢
+    simp only [List.foldl_cons]
+    have h1 := markAddrs_inv (fuel + 1) st r0.src
+    have h2 := markAddrs_inv (fuel + 1) (markAddrs (fuel + 1) st r0.src) r0.dst
+    have h3 := markSrvs_inv (fuel + 1) (markAddrs (fuel + 1) (markAddrs (fuel + 1) st r0.src) r0.dst) r0.srv
+    have hall := (h1.trans h2).trans h3
+    have hrest : MarkInv (markSrvs (fuel + 1) (markAddrs (fuel + 1) (markAddrs (fuel + 1) st r0.src) r0.dst) r0.srv)
+        (rs.foldl (fun st r => markSrvs (fuel + 1) (markAddrs (fuel + 1) (markAddrs (fuel + 1) st r.src) r.dst) r.srv)
+          (markSrvs (fuel + 1) (markAddrs (fuel + 1) (markAddrs (fuel + 1) st r0.src) r0.dst) r0.srv)) :=
+      foldl_markInv _ (fun s (r' : Rule) =>
+        ((markAddrs_inv (fuel + 1) s r'.src).trans (markAddrs_inv (fuel + 1) _ r'.dst)).trans
+          (markSrvs_inv (fuel + 1) _ r'.srv)) _ _
+    rcases List.mem_cons.mp hr with rfl | hr
+    · rcases hx with hx | hx
+      · exact ((markAddrs_marks fuel _ st x hx hg hb).mono (h2.trans h3)).mono hrest
+      · refine ((markAddrs_marks fuel _ _ x hx ?_ ?_).mono h3).mono hrest
+        · rw [(h1.idx x).2.2]; exact hg
+        · rw [(h1.idx x).2.1]; exact hb
+    · apply ih _ r x hr hx
+      · rw [(hall.idx x).2.2]; exact hg
+      · rw [(hall.idx x).2.1]; exact hb
+
+end NA.PanOs
+
+namespace NA.PanOs
+
+/-! ### From the marks to the removals -/
+
+theorem mem_insertSorted (x y : String) (l : List String) : x ∈ insertSorted y l ↔ x = y ∨ x ∈ l := by
+  induction l with
+  | nil => simp [insertSorted]
+  | cons z zs ih =>
+    simp only [insertSorted]
+    split
+    · simp only [List.mem_cons, ih]
+      constructor
+      · rintro (h | h | h)
+        · exact Or.inr (Or.inl h)
+        · exact Or.inl h
+        · exact Or.inr (Or.inr h)
+      · rintro (h | h | h)
+        · exact Or.inr (Or.inl h)
+        · exact Or.inl h
+        · exact Or.inr (Or.inr h)
+    · simp
+
+theorem mem_sortStrings (x : String) (l : List String) : x ∈ sortStrings l ↔ x ∈ l := by
+  unfold sortStrings
+  induction l with
+  | nil => simp
+  | cons y ys ih => simp [List.foldr_cons, mem_insertSorted, ih]
+
+theorem nodup_getElem?_inj {l : List String} (h : l.Nodup) {i j : Nat} {x : String}
+    (hi : l[i]? = some x) (hj : l[j]? = some x) : i = j := by
+  induction l generalizing i j with
+  | nil => simp at hi
+  | cons y ys ih =>
+    rw [List.nodup_cons] at h
+    cases i with
+    | zero =>
+      cases j with
+      | zero => rfl
+      | succ j =>
+        simp only [List.getElem?_cons_zero, Option.some.injEq, List.getElem?_cons_succ] at hi hj
+        subst hi
+        exact absurd (List.mem_of_getElem? hj) h.1
+    | succ i =>
+      cases j with
+      | zero =>
+        simp only [List.getElem?_cons_zero, Option.some.injEq, List.getElem?_cons_succ] at hi hj
+        subst hj
+        exact absurd (List.mem_of_getElem? hi) h.1
+      | succ j =>
+        simp only [List.getElem?_cons_succ] at hi hj
+        rw [ih h.2 hi hj]
+
+theorem markObjects_inv (fuel : Nat) (st : St) (rules : List Rule) : MarkInv st (markObjects fuel st rules) := by
+  unfold markObjects
+  exact foldl_markInv _ (fun s (r' : Rule) =>
+    ((markAddrs_inv fuel s r'.src).trans (markAddrs_inv fuel _ r'.dst)).trans (markSrvs_inv fuel _ r'.srv)) _ _
+
+theorem initSt_bGrp_names (a b : Vsys) (names : List String) (x : String)
+    (h : ∀ g ∈ b.groups, g.name ≠ x) : (initSt a b names).bGrpIdx x = none := by
+  unfold St.bGrpIdx
+  apply lastIdx_none_of_not_mem
+  simp only [initSt, List.map_map, List.mem_map, Function.comp_def, not_exists, not_and]
+  intro p hp hn
+  exact h p.1 (List.of_mem_zip hp).1 hn
+
+theorem diffRules_after_mark (diff : Differ) (fuel : Nat) (st0 : St) (a' b' : Vsys)
+    (aRules bRules rules : List Rule) (r : Rule) (x : String)
+    (hr : r ∈ rules) (hx : x ∈ r.src ∨ x ∈ r.dst)
+    (hg : st0.bGrpIdx x = none) (hb : (st0.bAddrIdx x).isSome) :
+    Marked (diffRules diff (fuel + 1) (markObjects (fuel + 1) st0 rules) a' b' aRules bRules) x ∧
+      (diffRules diff (fuel + 1) (markObjects (fuel + 1) st0 rules) a' b' aRules bRules).aAddr.map (·.o) =
+        st0.aAddr.map (·.o) := by
+  have hm := markObjects_marks fuel rules st0 r x hr hx hg hb
+  have hinv := markObjects_inv (fuel + 1) st0 rules
+  have hobjs := diffRules_objs diff (fuel + 1) (markObjects (fuel + 1) st0 rules) a' b' aRules bRules
+  have haddr := congrArg (fun (t : List AObj × List BObj × List AObj × List BObj × List AGrp × List AGrp) => t.1) hobjs
+  simp only [St.objs] at haddr
+  constructor
+  · intro ai hai
+    unfold St.aAddrIdx at hai
+    rw [haddr] at hai ⊢
+    exact hm ai hai
+  · rw [haddr, hinv.1]
+
+/-- The final planner state has marked every device address named by a rule of the target. -/
+theorem planState_marked (diff : Differ) (a b : Vsys) (r : Rule) (x : String)
+    (hr : r ∈ b.rules) (hx : x ∈ r.src ∨ x ∈ r.dst)
+    (hg : ∀ g ∈ b.groups, g.name ≠ x) (hb : ∃ o ∈ b.addrs, o.name = x) :
+    Marked (planState diff a b) x ∧
+      (planState diff a b).aAddr.map (·.o) = a.addrs := by
+  unfold planState
+  simp only
+  have hfuel : planFuel (sortVsys a) (sortVsys b) =
+      ((sortVsys a).groups.length + (sortVsys b).groups.length + (sortVsys b).sgroups.length + 1) + 1 := rfl
+  have hr' : ({ r with src := sortStrings r.src, dst := sortStrings r.dst, srv := sortStrings r.srv } : Rule) ∈
+      (sortVsys b).rules := by
+    simp only [sortVsys, List.mem_map]
+    exact ⟨r, hr, rfl⟩
+  have hx' : x ∈ sortStrings r.src ∨ x ∈ sortStrings r.dst := by
+    simpa [mem_sortStrings] using hx
+  have hg0 := initSt_bGrp_names (sortVsys a) (sortVsys b)
+    (uniqNames ((sortVsys a).groups.map (·.name)) ((sortVsys b).groups.map (·.name))) x (by
+      intro g hg'
+      simp only [sortVsys, List.mem_map] at hg'
+      obtain ⟨g0, hg0, rfl⟩ := hg'
+      exact hg g0 hg0)
+  have hb0 : ((initSt (sortVsys a) (sortVsys b)
+      (uniqNames ((sortVsys a).groups.map (·.name)) ((sortVsys b).groups.map (·.name)))).bAddrIdx x).isSome := by
+    unfold St.bAddrIdx
+    apply lastIdx_isSome_of_mem
+    obtain ⟨o, ho, hn⟩ := hb
+    simp only [initSt, sortVsys, List.map_map, List.mem_map, Function.comp_def]
+    exact ⟨o, ho, hn⟩
+  rw [hfuel]
+  obtain ⟨h1, h2⟩ := diffRules_after_mark diff _ _ (sortVsys a) (sortVsys b) (sortVsys a).rules
+    (((sortVsys b).rules.zip (uniqNames (ruleNames (sortVsys a).rules) (ruleNames (sortVsys b).rules))).map
+      (fun (r, n) => { r with name := n })) (sortVsys b).rules _ x hr' hx' hg0 hb0
+  refine ⟨h1, ?_⟩
+  rw [h2]
+  simp [initSt, sortVsys, List.map_map, Function.comp_def]
+
+/-- A removal of an address names a device address whose `needed` flag is down. -/
+theorem delAddr_mem_removeCmds {st : St} {x : String} (h : Cmd.delAddr x ∈ removeCmds st) :
+    ∃ o ∈ st.aAddr, o.needed = false ∧ o.o.name = x := by
+  simp only [removeCmds, List.mem_append, List.mem_filterMap] at h
+  rcases h with ((⟨g, _, h⟩ | ⟨o, ho, h⟩) | ⟨g, _, h⟩) | ⟨o, _, h⟩
+  · split at h <;> cases h
+  · split at h
+    · rename_i hn
+      simp only [Option.some.injEq, Cmd.delAddr.injEq] at h
+      exact ⟨o, ho, by simpa using hn, h⟩
+    · cases h
+  · split at h <;> cases h
+  · split at h <;> cases h
+
+/-- **No address that a rule of the target names is removed.** -/
+theorem planVsys_spares_address (diff : Differ) (a b : Vsys) (ha : (a.addrs.map (·.name)).Nodup)
+    (r : Rule) (x : String) (hr : r ∈ b.rules) (hx : x ∈ r.src ∨ x ∈ r.dst)
+    (hg : ∀ g ∈ b.groups, g.name ≠ x) (hb : ∃ o ∈ b.addrs, o.name = x) :
+    Cmd.delAddr x ∉ planVsys diff a b := by
+  intro hmem
+  unfold planVsys at hmem
+  simp only [List.mem_append] at hmem
+  obtain ⟨hmark, hdefs⟩ := planState_marked diff a b r x hr hx hg hb
+  rcases hmem with (h | h) | h
+  · have := transferCmds_kind _ _ h
+    simp [Cmd.isTransfer] at this
+  · have := planState_out_kind diff a b _ h
+    simp [Cmd.isRuleCmd, Cmd.isMember, ordOf] at this
+  · obtain ⟨o, ho, hn, hname⟩ := delAddr_mem_removeCmds h
+    obtain ⟨i, hi⟩ := List.getElem?_of_mem ho
+    have hnames : (planState diff a b).aAddr.map (·.o.name) = a.addrs.map (·.name) := by
+      have := congrArg (List.map (·.name)) hdefs
+      simpa [List.map_map, Function.comp_def] using this
+    have hix : ((planState diff a b).aAddr.map (·.o.name))[i]? = some x := by
+      rw [List.getElem?_map, hi]; simp [hname]
+    have hsome : ((planState diff a b).aAddrIdx x).isSome := by
+      unfold St.aAddrIdx
+      exact lastIdx_isSome_of_mem (List.mem_of_getElem? hix)
+    cases hai : (planState diff a b).aAddrIdx x with
+    | none => simp [hai] at hsome
+    | some ai =>
+      have haix := lastIdx_spec hai
+      have : i = ai := nodup_getElem?_inj (by rw [hnames]; exact ha) hix haix
+      subst this
+      obtain ⟨o', ho', hn'⟩ := hmark i hai
+      rw [hi] at ho'
+      cases ho'
+      rw [hn] at hn'
+      cases hn'
+
+end NA.PanOs
